@@ -13,7 +13,7 @@ import (
 
 // verifAdjacentObjects allocates k objects in one block with the real Put,
 // writes them in a harness-chosen order and checks placement byte by byte.
-func verifAdjacentObjects(block Block, k, maxSize int, image func() []byte, base int, dev *verifDevice) {
+func verifAdjacentObjects(block Block, k, maxSize, maxCuts int, image func() []byte, base int, dev *verifDevice) {
 	objs := make([]*verifObject, 0, k)
 	next := int64(0)
 	for i := 0; i < k; i++ {
@@ -22,7 +22,7 @@ func verifAdjacentObjects(block Block, k, maxSize int, image func() []byte, base
 			vnd.Cover("no-space")
 			break
 		}
-		o := &verifObject{n: n, data: vnd.Bytes(n), digest: verifTrustDigest(n)}
+		o := &verifObject{n: n, data: vnd.Bytes(n), digest: verifTrustDigest(n), maxCuts: maxCuts}
 		o.writer = block.Put(int64(n))
 		objs = append(objs, o)
 	}
@@ -72,12 +72,19 @@ func verifAdjacentObjects(block Block, k, maxSize int, image func() []byte, base
 //
 // symgo: maxpaths=400000
 func Verif_C01_W1_SectorWriter() {
-	S := 2
+	// quick: 4-byte sectors (the smallest size at which an object's tail can overwrite its own
+	// head inside a shared sector image), sizes 0..S+2, at most one cut per object;
+	// thorough: sector sizes 1, 2, 4, sizes 0..2S+1, up to two cuts, three objects
+	S, maxSize, maxCuts := 4, 6, 1
 	if vnd.Thorough() {
 		S = []int{1, 2, 4}[vnd.Choose(3)]
+		maxSize, maxCuts = 2*S+1, 2
 	}
-	const blockSectors = 4
-	dev := &verifDevice{image: make([]byte, 3*blockSectors*S), sector: S}
+	blockSectors := int64(2) // quick: 8-byte blocks, so that running out of space is reachable
+	if vnd.Thorough() {
+		blockSectors = 4
+	}
+	dev := &verifDevice{image: make([]byte, 3*int(blockSectors)*S), sector: S}
 	pa := NewBlockDeviceBackedBlockAllocator(dev, verifPlainFactory{}, S, blockSectors, 3, "verif")
 	// take the second block so that a wrong base offset shows
 	b0, _, err0 := pa.NewBlock()
@@ -86,13 +93,13 @@ func Verif_C01_W1_SectorWriter() {
 	vnd.Assert(err == nil, "allocation of a free block failed")
 	_ = b0
 	base := int(loc.OffsetBytes)
-	vnd.Assert(base == blockSectors*S, "second block not at the second block offset")
-	dev.lo, dev.hi = base, base+blockSectors*S
+	vnd.Assert(base == int(blockSectors)*S, "second block not at the second block offset")
+	dev.lo, dev.hi = base, base+int(blockSectors)*S
 	k := 2
 	if vnd.Thorough() {
 		k = 3
 	}
-	verifAdjacentObjects(block, k, 2*S+1, func() []byte { return dev.image }, base, dev)
+	verifAdjacentObjects(block, k, maxSize, maxCuts, func() []byte { return dev.image }, base, dev)
 }
 
 // Verif_C01_W1b_WriteFailure: a failing device write is reported by the finalizer.
@@ -103,7 +110,7 @@ func Verif_C01_W1b_WriteFailure() {
 	pa := NewBlockDeviceBackedBlockAllocator(dev, verifPlainFactory{}, S, blockSectors, 1, "verif")
 	block, _, _ := pa.NewBlock()
 	n := 1 + vnd.Choose(2*S+1)
-	o := &verifObject{n: n, data: vnd.Bytes(n), digest: verifTrustDigest(n)}
+	o := &verifObject{n: n, data: vnd.Bytes(n), digest: verifTrustDigest(n), maxCuts: 2}
 	o.writer = block.Put(int64(n))
 	dev.failWrite = 1 + vnd.Choose(2)
 	verifRunWriter(o)
@@ -124,5 +131,5 @@ func Verif_C01_W2_InMemoryBlock() {
 	block, _, err := pa.NewBlock()
 	vnd.Assert(err == nil, "allocation failed")
 	ib := block.(*inMemoryBlock)
-	verifAdjacentObjects(block, 2, 5, func() []byte { return ib.data }, 0, nil)
+	verifAdjacentObjects(block, 2, 5, 2, func() []byte { return ib.data }, 0, nil)
 }
